@@ -6,7 +6,7 @@ def run(ctx):
     thorough = ctx.tier == "thorough"
     ctx.tlc_mc("", "Isolation", "MC_Isolation.cfg", workers=2)
     ctx.tlc_expect_violation("", "Isolation", "MC_Isolation_AsIs.cfg", "ToGo ranging over the forward map is two-valued for read committed")
-    nproc = 16 if thorough else 6
+    nproc = 64 if thorough else 24
     t = os.path.join(ctx.scratch, "iso.ndjson")
     with open(t, "w") as out:
         for i in range(nproc):
